@@ -293,6 +293,20 @@ class Check:
             ]
             self.extra["audit_output_tail"] = out[-2000:]
             return False
+        if self.tier == "thorough":
+            # independent re-check of the compiled property modules (and what they import from this library)
+            # by the toolchain's stand-alone kernel re-checker
+            try:
+                lc = subprocess.run(["lake", "env", "leanchecker", *prop_modules(self.id)], cwd=LEAN, capture_output=True,
+                                    text=True, timeout=3000)
+                self.extra["leanchecker"] = {"modules": prop_modules(self.id), "exit": lc.returncode,
+                                             "tail": (lc.stdout + lc.stderr).strip()[-400:]}
+                if lc.returncode != 0:
+                    self.build_failed = ["leanchecker: " + (lc.stdout + lc.stderr).strip()[-300:]]
+                    self.discharged = 0
+                    return False
+            except FileNotFoundError:
+                self.extra["leanchecker"] = "not installed"
         return True
 
     # -- finish ------------------------------------------------------------------------------
